@@ -1192,6 +1192,10 @@ impl TcpSession {
         self.metrics.backend_id = Some(backend.borrow().backend_id.clone());
         self.metrics.backend_start();
         self.set_backend_id(backend.borrow().backend_id.clone());
+        // keep the handle `backend_from_cluster_id` counted this connection on:
+        // `remove_backend` gives the connection back (dec_connections) and
+        // `fail_backend_connection` records failures through it
+        self.backend = Some(backend);
 
         // Postcondition of a successful New connect: the session is wired to
         // its freshly-registered backend token and the status reflects an
